@@ -98,6 +98,7 @@ def run_shard(shard):
         rules_family(st)
         empty_left_family(st)
         alias_family(st)
+        pad_family(st)
     return st
 
 
@@ -166,6 +167,41 @@ ALIAS_CASES = [
     ("t: [&l {k: 1}, *l, {k: 3}]\n", "x: [9]\n", "/t/*",
      {"t": [{"k": 1, "x": [9]}, {"k": 1, "x": [9]}, {"k": 3, "x": [9]}]}),
 ]
+
+
+PAD_CASES = [
+    # (left, right, merge point, expected) - the list is padded up to the
+    # created index; what lies beyond the index goes under THAT element only
+    ("a: [{n: 0}]\nb: keep\n", "x: 1\n", "/a[3]/k",
+     {"a": [{"n": 0}, {}, {}, {"k": {"x": 1}}], "b": "keep"}),
+    ("a: [{n: 0}]\nb: keep\n", "[7]\n", "/a[2][0]",
+     {"a": [{"n": 0}, [], [[7]]], "b": "keep"}),
+    ("a: []\n", "x: 1\n", "/a[2]/k/j",
+     {"a": [{}, {}, {"k": {"j": {"x": 1}}}]}),
+    ("a: [1]\n", "5\n", "/a[3]/k", {"a": [1, {}, {}, {"k": 5}]}),
+]
+
+
+def pad_family(st):
+    for ltext, rtext, at, want in PAD_CASES:
+        for pol in POLS[:2]:
+            st.evaluations += 1
+            st.transitions += 1
+            st.validated += 1
+            case = {"lhs": ltext, "rhs": rtext, "mergeat": at, "segs": [],
+                    "policies": pol, "alias_case": True}
+            cfg = mergerun.make_config(pol, mergeat=at)
+            res, data = mergerun.merge(corpus.load(ltext), corpus.load(rtext),
+                                       cfg)
+            st.outcomes["pad:" + res] += 1
+            if res != "ok":
+                st.fail("created-index|%s" % res, case, repr(want), str(data))
+                continue
+            st.states += 1
+            st.sig("created-index", ltext, at, pol["hashes"])
+            if _plain(data) != want:
+                st.fail("created-index|wrong-result", case, repr(want),
+                        repr(_plain(data)))
 
 
 def alias_family(st):
@@ -403,6 +439,7 @@ def replay(case):
     if case.get("empty_left") or case.get("alias_case"):
         empty_left_family(st)
         alias_family(st)
+        pad_family(st)
         for lst in st.fails.values():
             for f in lst:
                 if all(f["case"][k] == case[k] for k in
